@@ -1048,6 +1048,9 @@ def run_csv_typing(repo, libfuncs, rule='E6l'):
         (['k', 'v'], [['a', 10], ['b', None], ['c', 12.75], ['d', -0.5]]),
         (['flag', 'when', 'note'], [[None, None, 'first'], [True, D(2020, 2, 29, 12), '2020-02-30T10:00:00Z'], [False, D(2021, 6, 1), 'true story']]),
         (['s'], [['2024-02-30'], ['2024-02-28x'], ['x']]),
+        # the first value of a column decides its type: zero, false and the first instant of a day are values like any other
+        (['z', 'f', 'e'], [[0, False, D(1970, 1, 1)], [5, True, D(2000, 1, 1, 0, 0, 0)], [-0.5, None, None]]),
+        (['z'], [[0.0], [None], [0]]),
     ]
 
     def cell(v):
